@@ -62,7 +62,8 @@ def valid_bases(name, mod, n, rnd, synth):
     # 0 / 9 at the first positions (leading zeros, range ends), each kept when it is -- possibly after searching the last
     # character -- a valid number in canonical form
     from vlib import inputs
-    alpha = inputs.module_alphabet(mod)[:24]
+    alpha0 = inputs.module_alphabet(mod, cap=60)
+    alpha = ([c for c in alpha0 if not c.isalnum()] + [c for c in alpha0 if c.isalnum()])[:32]      # symbols first
     layouts = lib.pick_bases(name, mod, [], 0, rnd, cap=5, corpus_items=list(bases))      # one base per documented layout
     for b in list(dict.fromkeys(list(bases[:2]) + layouts)):
         if not b.isascii():
